@@ -730,3 +730,139 @@ def _link_run(pm, v):
 @reg("common.bin2hex_frame")
 def _b2hf(pm, v):
     return enc.res(pm.common.bin2hex("".join(format(b, "08b") for b in v["frame"])))
+
+
+# ---- C17: the decoder process loop Decode.run between fake pipe ends, stepped along a schedule of DecodeLoop actions ----
+@reg("decodeloop.run")
+def _decodeloop_run(pm, v):
+    import time as _time
+    from pyModeS.streamer.source import NetSource
+    from pyModeS.streamer.decode import Decode
+
+    class Stop(BaseException):           # not an Exception: passes through the loop's `except Exception`
+        pass
+
+    toks = list(v["sched"])
+    poison = set(v["poison"])
+    T0 = 1700000000
+    st = {"pos": 0, "sent": 0, "calls": [], "pubs": 0, "excs": 0, "tab": 0}
+    q = []                               # the raw pipe
+    events = []
+    real_time, real_sleep = _time.time, _time.sleep
+    _time.time = lambda: float(T0 + 30)
+    _time.sleep = lambda s: None
+
+    def bid(d):
+        return int(round(d["adsb_ts"][0] - T0))
+
+    def log(a, **kw):
+        e = {"a": a, "sent": st["sent"], "pipe": [bid(d) for d in q], "calls": list(st["calls"]), "pubs": st["pubs"], "excs": st["excs"]}
+        e.update(kw)
+        events.append(e)
+
+    class Flag:
+        value = False
+
+    class RawIn:
+        def send(self, d):
+            q.append(d)
+
+    src = NetSource("localhost", 0, "beast")
+    src.stop_flag = Flag()
+    src.raw_pipe_in = RawIn()
+
+    def ident(addr, cs):
+        f = [0x8D, addr >> 16, (addr >> 8) & 255, addr & 255, 0x20 | 3] + [0] * 6
+        code = " ABCDEFGHIJKLMNOPQRSTUVWXYZ                     0123456789      "
+        bits = 0
+        for ch in cs:
+            bits = (bits << 6) | (code.index(ch) + (0 if ch == " " else 0))
+        for k in range(6):
+            f[5 + k] = (bits >> (8 * (5 - k))) & 255
+        hx_ = bytes(f).hex().upper() + "000000"
+        return hx_[:22] + "%06X" % pm.crc(hx_, encode=True)
+
+    def do_send():
+        b = st["sent"] + 1
+        before = len(q)
+        if b in poison:
+            # malformed input that process_raw cannot digest (not producible by the source, which drops it)
+            q.append({"adsb_ts": [T0 + b, T0 + b], "adsb_msg": [ident(0x400000 + b, "POISON%02d" % b), "8D4840D6ZZ2CC371C32CE0576098"],
+                      "commb_ts": [], "commb_msg": []})
+        else:
+            src.handle_messages([[ident(0x400000 + b, "BATCH%03d" % b), T0 + b], [ident(0x400000 + b, "BATCH%03d" % b), T0 + b + 0.25]])
+        st["sent"] = b
+        log("Send", ok=1 if len(q) == before + 1 else 0)
+
+    def upto(kinds):
+        """apply the scheduled sends, then return the next scheduled decoder action (None when the schedule is used up)"""
+        while st["pos"] < len(toks) and (toks[st["pos"]] == "Send" or (toks[st["pos"]] == "ProcDone" and "Publish" in kinds)):
+            if toks[st["pos"]] == "Send":
+                do_send()
+            else:
+                log("ProcDone")
+            st["pos"] += 1
+        if st["pos"] >= len(toks):
+            raise Stop()
+        return toks[st["pos"]]
+
+    def took(kind):
+        want = toks[st["pos"]]
+        st["pos"] += 1
+        if want != kind:
+            events.append({"a": "DIVERGED", "want": want, "got": kind, "sent": st["sent"], "pipe": [bid(d) for d in q],
+                           "calls": list(st["calls"]), "pubs": st["pubs"], "excs": st["excs"]})
+            raise Stop()
+
+    class RawOut:
+        def poll(self):
+            upto(("Poll",))
+            r = len(q) > 0
+            took("Poll")
+            log("Poll", r=1 if r else 0)
+            return r
+
+        def recv(self):
+            upto(("Recv",))
+            d = q.pop(0)
+            took("Recv")
+            log("Recv")
+            return d
+
+    class AcIn:
+        def send(self, acs):
+            upto(("Publish",))
+            st["pubs"] = len(st["calls"])
+            st["tab"] = len(acs)
+            took("Publish")
+            log("Publish", tab=len(acs))
+
+    class ExcQ:
+        def put(self, x):
+            st["excs"] += 1
+            if events and events[-1]["a"] == "ProcRaise":
+                events[-1]["excs"] = st["excs"]
+
+    class D(Decode):
+        def process_raw(self, adsb_ts, adsb_msg, commb_ts, commb_msg, tnow=None):
+            upto(("ProcOk", "ProcRaise"))
+            b = int(round(adsb_ts[0] - T0))
+            st["calls"].append(b)
+            try:
+                r = Decode.process_raw(self, adsb_ts, adsb_msg, commb_ts, commb_msg, tnow)
+            except Exception:
+                took("ProcRaise")
+                log("ProcRaise")
+                raise
+            took("ProcOk")
+            log("ProcOk", tab=len(self.acs))
+            return r
+
+    dec = D()
+    try:
+        dec.run(RawOut(), AcIn(), ExcQ())
+    except Stop:
+        pass
+    finally:
+        _time.time, _time.sleep = real_time, real_sleep
+    return {"t": "loop", "v": events, "used": st["pos"]}
